@@ -8,10 +8,13 @@ open Drx Drx.Lscr
 set_option linter.unusedSimpArgs false
 set_option linter.unusedVariables false
 
-/-- a statement whose code is a binary operation (assignment) or a call -/
+/-- a statement whose code is a binary operation (assignment), a call, a `put … into|after|before` or a unary operation
+    (`delete` / `hilite`) -/
 inductive PlainStmt : Node → Prop
   | bin (p : Int) (op : Str) (q : Int) (l r : Node) : PlainStmt (.stmt p (.binary op q l r))
   | call (p : Int) (n : Lscr.Name) (q : Int) (ps : Node) (up it wr : Bool) (rc : Node) : PlainStmt (.stmt p (.callFn n q ps up it wr rc))
+  | sp (p q : Int) (l r : Node) (m : Str) : PlainStmt (.stmt p (.spAssign q l r m))
+  | un (p : Int) (op : Str) (q : Int) (x : Node) : PlainStmt (.stmt p (.unary op q x))
 
 def PlainStmts (l : List Node) : Prop := ∀ x ∈ l, PlainStmt x
 
